@@ -638,7 +638,8 @@ func findClosureReader(r Reader, opener, closer byte, opts FindClosureOptions) (
 						if ret == nil {
 							ret = NewSegments()
 						}
-						ret.Append(seg.WithStop(seg.Start + i))
+						// i indexes the peeked line, which starts with the segment's padding
+						ret.Append(seg.WithStop(seg.Start + i - seg.Padding))
 						r.Advance(i + 1)
 						closed = true
 						goto end
